@@ -7,6 +7,7 @@ import builtins
 from collections import namedtuple
 
 from .. import peg as g
+from ..contexts.ast import AST
 from ..objectmodel import Node
 from ..util import deprecated_params, safe_name, topsort
 from ..util.indent import IndentPrintMixin
@@ -129,8 +130,10 @@ class PythonModelGenerator(IndentPrintMixin):
         if not specs:
             return
         spec = specs[0]
+        # note: the fields must be named after the keys the AST will have
+        safekey = AST()._safekey
         arguments = sorted(
-            {safe_name(d) for d in rule.defines_single + rule.defines_list}
+            {safe_name(safekey(d)) for d in rule.defines_single + rule.defines_list}
         )
 
         self.print()
